@@ -53,7 +53,7 @@ def policy (ty field : String) : Policy :=
   | "ocppj.DefaultClientDispatcher", "timer" => .free "replaced by Start only, before the pump goroutine is started (go statement orders it); time.Timer methods are safe for concurrent use"
   | "ws.client", "webSocket" => .lock "mutex"
   | "ws.client", "reconnectC" => .chanFree
-  | "ws.client", "errC" => .free "lazily created, closed and reset without synchronisation (Errors / Stop / error): known finding C19 race:ws.(*client).Errors|ws.(*client).error"
+  | "ws.client", "errC" => .lock "errMutex"
   | "ws.client", "url" => .free "written by connect, read by the reconnection routine that runs after it on the same socket's goroutines"
   | "ws.server", "errC" => .free "unsynchronised by design of Errors()/Stop(): known finding C19 race:ws.server.errC"
   | "ws.server", "addr" => .free "Addr() is not synchronised with Start (documented use: after Start returned its listener)"
